@@ -99,6 +99,8 @@ def parse_match(text):
     if "::" in text:
         text, repo_id = text.rsplit("::", 1)
         restrictions.append(restricts.RepositoryDep(repo_id))
+    # globs are supported in the category, package, slot and subslot
+    globbed = "*" in text
     if ":" in text:
         text, slot = text.rsplit(":", 1)
         slot, _sep, subslot = slot.partition("/")
@@ -152,10 +154,13 @@ def parse_match(text):
         try:
             return atom.atom(orig_text)
         except errors.MalformedAtom as e:
-            if "*" not in text:
+            if not globbed:
                 raise ParseError(str(e)) from e
-            # support globbed targets with version restrictions
-            return packages.AndRestriction(*parse_globbed_version(text, orig_text))
+        if text[0] in atom.valid_ops:
+            # support globbed targets with version restrictions, keeping
+            # the slot, subslot and repo restrictions collected above
+            restrictions.extend(parse_globbed_version(text, orig_text))
+            return packages.AndRestriction(*restrictions)
 
     r = list(map(convert_glob, tsplit))
     if not r[0] and not r[1]:
